@@ -249,24 +249,39 @@ func TestC12FreshProcess(t *testing.T) {
 }
 
 // TestEnumFirstUse: every entry point as the first library call of a process.
-// VERIF_FIRSTUSE_PROP selects the entry points of one property (C07 / C12).
+// VERIF_FIRSTUSE_PROP selects the entry points of one property (C07 / C12);
+// with VERIF_FIRSTUSE_CONC the first call is made by 8 goroutines at once.
 func TestEnumFirstUse(t *testing.T) {
 	prop := os.Getenv("VERIF_FIRSTUSE_PROP")
 	if prop == "" {
 		prop = "C12"
 	}
-	n := 0
+	var specs []*FirstUseSpec
 	for _, c := range firstUseCalls {
 		if prop == "C07" && c.prop != "C07" {
 			continue
 		}
-		spec := &FirstUseSpec{Entry: c.name}
-		res := checks["FirstUse"+prop].runSafely(spec)
-		n++
-		col.CaseFP("FirstUse"+prop, fingerprint([]byte(c.name)), true, func() interface{} { return spec }, res.Classes...)
+		specs = append(specs, &FirstUseSpec{Entry: c.name, Conc: os.Getenv("VERIF_FIRSTUSE_CONC") != ""})
+	}
+	results := make([]Result, len(specs))
+	var wg sync.WaitGroup
+	sem := make(chan struct{}, 8)
+	for i := range specs {
+		wg.Add(1)
+		go func(i int) {
+			defer wg.Done()
+			sem <- struct{}{}
+			defer func() { <-sem }()
+			results[i] = checks["FirstUse"+prop].runSafely(specs[i])
+		}(i)
+	}
+	wg.Wait()
+	for i, spec := range specs {
+		spec, res := spec, results[i]
+		col.CaseFP("FirstUse"+prop, fingerprint([]byte(fmt.Sprint(spec.Entry, spec.Conc))), true, func() interface{} { return spec }, res.Classes...)
 		if res.Err != nil {
 			enumFail(t, "FirstUse"+prop, spec, res.Err)
 		}
 	}
-	col.Exhaustive("FirstUse"+prop, fmt.Sprintf("%d public entry points, each as the first library call of a freshly started process, followed by all the others; compared with a warm process", n))
+	col.Exhaustive("FirstUse"+prop, fmt.Sprintf("%d public entry points, each as the first library call of a freshly started process (made by one goroutine, or by 8 at once under the race detector), followed by all the others; compared with a warm process", len(specs)))
 }
